@@ -450,18 +450,29 @@ fn run_case(input: &[u8], rng: &mut Rng, fixed_repl: Option<&str>, label: Option
                     flags.push('N');
                 }
             } else {
-                // big inputs: the node pre-order only (the per-element accessors are linear in the sibling count)
+                // big inputs: the node pre-order only (the per-element accessors are linear in the sibling count, so
+                // Preorder is quadratic in the number of siblings: skipped when a node has very many node children)
                 let mut count = 0usize;
-                fn count_nodes(n: &SyntaxNode, c: &mut usize) {
+                let mut cost = 0usize;
+                fn count_nodes(n: &SyntaxNode, c: &mut usize, cost: &mut usize) {
                     *c += 1;
-                    for ch in n.children() {
-                        count_nodes(&ch, c);
+                    let mut all = 0usize;
+                    let mut nodes = 0usize;
+                    for ch in n.children_with_tokens() {
+                        all += 1;
+                        if let Child::Node(ch) = ch {
+                            nodes += 1;
+                            count_nodes(&ch, c, cost);
+                        }
                     }
+                    *cost = cost.saturating_add(all.saturating_mul(nodes));
                 }
-                count_nodes(&root, &mut count);
-                let walk_count = file.walk().filter(|e| matches!(e, vhdl_syntax::syntax::visitor::WalkEvent::Enter(_))).count();
-                if walk_count != count {
-                    flags.push('N');
+                count_nodes(&root, &mut count, &mut cost);
+                if cost <= 20_000_000 {
+                    let walk_count = file.walk().filter(|e| matches!(e, vhdl_syntax::syntax::visitor::WalkEvent::Enter(_))).count();
+                    if walk_count != count {
+                        flags.push('N');
+                    }
                 }
             }
             if w.tile_bad {
